@@ -140,6 +140,12 @@ thread_local! {
 }
 
 pub fn install_panic_hook() {
+    // many short-lived strings on 16 threads: keep glibc from trimming / re-mapping its arenas all the time
+    unsafe {
+        libc::mallopt(libc::M_TRIM_THRESHOLD, 1 << 30);
+        libc::mallopt(libc::M_MMAP_THRESHOLD, 1 << 30);
+        libc::mallopt(libc::M_TOP_PAD, 64 << 20);
+    }
     std::panic::set_hook(Box::new(|info| {
         let msg = if let Some(s) = info.payload().downcast_ref::<&str>() {
             s.to_string()
